@@ -229,10 +229,10 @@ func rulesC18(c *Ctx) {
 		got := map[string]string{}
 		inspectNoLit(nf.Body, func(n ast.Node) {
 			cc, ok := n.(*ast.CaseClause)
-			if !ok || len(cc.List) != 1 {
+			if !ok || len(caseValues(cc)) != 1 {
 				return
 			}
-			id, _ := ast.Unparen(cc.List[0]).(*ast.Ident)
+			id, _ := ast.Unparen(caseValues(cc)[0]).(*ast.Ident)
 			if id == nil {
 				return
 			}
